@@ -1,7 +1,7 @@
 (* C16 - URL comparison rules hide exactly the noise they name. *)
 From Coq Require Import List NArith Arith Bool String Lia.
 From WMD Require Import Gen.Tables Lib.Str Lib.PyChars Lib.Difflib Model.RenderTokens Model.RenderMerge
-     Proofs.DifflibProofs Proofs.DifflibSound Proofs.UrlRuleProofs.
+     Proofs.DifflibProofs Proofs.DifflibSound Proofs.UrlRuleProofs Proofs.UrlTreeProofs.
 Import ListNotations.
 Open Scope N_scope.
 
@@ -56,6 +56,48 @@ Theorem C16_eq_aligned_sequences : forall (A : Type) (same_key eq : A -> A -> bo
       (forall j, (j < n)%nat -> same_key (nth i b dflt) (nth j a dflt) = false))) ->
   find_longest_match A same_key eq dflt a b 0 n 0 n = (0, 0, n)%nat.
 Proof. exact flm_eq_aligned. Qed.
+
+(* --- the same at tree level: two element trees with the same structure, text and embedded content
+   - attributes are free, except that link targets and image sources must be equal under the
+   rules - give token lists that are == position by position (through flattening, tokenising,
+   customisation and the spacer cap, for every cap); with the freshness of rewritten URLs: zero
+   changes, for every document shape and any number of links and images --- *)
+Theorem C16_trees_tokens_pairwise_equal : forall rules e1 e2 cap,
+  el_sim rules e1 e2 -> Forall2 (tok_sim rules) (prepare e1 cap) (prepare e2 cap).
+Proof. exact prepare_sim. Qed.
+
+Theorem C16_zero_trees_partial : forall rules e1 e2 cap,
+  el_sim rules e1 e2 ->
+  (let old := prepare e1 cap in let new := prepare e2 cap in
+   forall i, (i < List.length old)%nat -> token_same_key (nth i new dtoken) (nth i old dtoken) = true \/
+     ((forall j, (j < List.length old)%nat -> token_same_key (nth j new dtoken) (nth i old dtoken) = false) /\
+      (forall j, (j < List.length old)%nat -> token_same_key (nth i new dtoken) (nth j old dtoken) = false))) ->
+  count_changes (token_opcodes rules (prepare e1 cap) (prepare e2 cap)) = zero_counts.
+Proof. exact rule_equal_trees_no_change. Qed.
+
+(* a paragraph with an archived link and an archived image, timestamps rewritten and a class added:
+   the trees are related, zero changes under the rule, a change with rules off *)
+Definition ex_link (u : string) (cls : list (str * str)) : el :=
+  El (s2l "p") cls (s2l "See ")
+     [El (s2l "a") [(s2l "href", s2l u)] (s2l "the report") [] (s2l " and ") [];
+      El (s2l "img") ((s2l "src", s2l u) :: cls) [] [] (s2l " today") []] [] [].
+Definition ex_old := ex_link "http://web.archive.org/web/20190101000000/http://e.gov/r" [].
+Definition ex_new := ex_link "http://web.archive.org/web/20200202000000/http://e.gov/r" [(s2l "class", s2l "x")].
+
+Example C16_tree_example :
+  el_sim (Some [RWayback]) ex_old ex_new /\
+  count_changes (token_opcodes (Some [RWayback]) (prepare ex_old 2500) (prepare ex_new 2500)) = zero_counts /\
+  (0 < change_count (count_changes (token_opcodes None (prepare ex_old 2500) (prepare ex_new 2500))))%nat.
+Proof.
+  split; [|split; [vm_compute; reflexivity|vm_compute; lia]].
+  unfold ex_old, ex_new, ex_link. constructor.
+  - constructor; [|constructor; [|constructor]].
+    + constructor; [constructor|intros E; discriminate E|intros _; vm_compute; reflexivity|intros E; discriminate E].
+    + constructor; [constructor|intros E; discriminate E|intros E; discriminate E|intros _; vm_compute; reflexivity].
+  - intros E. discriminate E.
+  - intros E. discriminate E.
+  - intros E. discriminate E.
+Qed.
 
 (* --- the unrestricted statement is false of the faithful model (and of the code: known finding):
    two images of the same target whose timestamps are swapped between the versions --- *)
